@@ -278,7 +278,11 @@ func (g *G) dimensions(o dimOpts) influxql.Dimensions {
 		if g.Opt.Odd && !o.needTime && g.Rg.P(0.4) {
 			// odd but accepted dimensions
 			var e influxql.Expr
-			switch g.Rg.Intn(6) {
+			switch g.Rg.Intn(8) {
+			case 6:
+				e = &influxql.Call{Name: "time", Args: []influxql.Expr{&influxql.DurationLiteral{Val: 0}, &influxql.Call{Name: "now"}}}
+			case 7:
+				e = &influxql.Call{Name: "time", Args: []influxql.Expr{&influxql.DurationLiteral{Val: time.Minute}, &influxql.Call{Name: "now"}}}
 			case 0:
 				e = &influxql.Call{Name: "time"}
 			case 1:
